@@ -1059,10 +1059,15 @@ func _recover(n *node) {
 			return tnext
 		}
 
+		// The panic builtin panics with the reflect value of its operand.
+		rv, ok := f.anc.recovered.(reflect.Value)
+		if !ok {
+			rv = reflect.ValueOf(f.anc.recovered)
+		}
 		if isEmptyInterface(n.typ) {
-			dest(f).Set(reflect.ValueOf(f.anc.recovered))
+			dest(f).Set(rv)
 		} else {
-			dest(f).Set(reflect.ValueOf(valueInterface{n, reflect.ValueOf(f.anc.recovered)}))
+			dest(f).Set(reflect.ValueOf(valueInterface{n, rv}))
 		}
 		f.anc.recovered = nil
 		return tnext
